@@ -83,7 +83,7 @@ from collections import namedtuple
 from collections.abc import Mapping
 from contextlib import contextmanager
 from copy import deepcopy
-from filecmp import cmpfiles, dircmp
+from filecmp import clear_cache, cmpfiles, dircmp
 from multiprocessing.pool import ThreadPool
 
 from ._utility import _query_yes_no, _safe_relpath
@@ -124,6 +124,8 @@ class _dircmp_deep(dircmp):
 
     def phase3(self):
         """Find out differences between common files."""
+        # filecmp caches outcomes by (size, mtime) signature, also for content comparisons.
+        clear_cache()
         xx = cmpfiles(self.left, self.right, self.common_files, shallow=False)
         self.same_files, self.diff_files, self.funny_files = xx
 
